@@ -375,7 +375,69 @@ Section C04_fortran.
     agree_outside (fun i j => W i j \/ ((In i (endo d) \/ In (Z.of_nat i + 1) (FSolve.fm_endo fm)) /\ j = p)) (vals_of s) (vals_of s') /\
     sf_frame p s s' /\ log s' = log s.
   Proof. exact (fortran_solve_t_frame num sub absf ltb isfin zero evf fm d o t s p W). Qed.
+
+  (* FortranEngine.solve() over the positions ps (inside the span): for every equations block that, called for an
+     in-range column idx, writes only inside W idx — values change only inside W idx or in the module's endogenous rows
+     of a VISITED column; status / iterations change at visited positions only; no hook event *)
+  Theorem C04_fortran_solve_frame (fm : FSolve.fmod) (sh : list nat) (W : Z -> nat -> nat -> Prop) :
+    (forall r, In r (FSolve.fm_endo fm) -> 1 <= r <= Z.of_nat (length sh)) ->
+    (forall idx v, 1 <= idx <= Z.of_nat (hd 0%nat sh) -> shape v = sh -> agree_outside (W idx) v (evf idx v)) ->
+    forall d o fl (ps : list nat) (s : mstate num),
+    shape (vals_of s) = sh ->
+    (forall p, In p ps -> (p < hd 0%nat sh)%nat) ->
+    let s' := fst (FSolve.w_solve num sub absf ltb isfin zero evf fm d o fl ps s) in
+    agree_outside (fun i j => exists idx, In idx (map (fun p => Z.of_nat p + 1) ps) /\
+                       (W idx i j \/ (In (Z.of_nat i + 1) (FSolve.fm_endo fm) /\ j = Z.to_nat (idx - 1))))
+                  (vals_of s) (vals_of s') /\
+    log s' = log s /\ length (status s') = length (status s) /\ length (iters s') = length (iters s) /\
+    (forall q, ~ In q ps -> nth_error (status s') q = nth_error (status s) q /\ nth_error (iters s') q = nth_error (iters s) q).
+  Proof. exact (fortran_solve_frame num sub absf ltb isfin zero evf fm sh W). Qed.
 End C04_fortran.
+
+(* ---- ... and the generated {equations} block (model Fortran/FSem.f_pass: every program over the Fortran-side syntax tree) ---- *)
+Section C04_fortran_parsed.
+  Variable num : Type.
+  Variables (add sub mul div : num -> num -> num) (neg absf : num -> num) (ltb : num -> num -> bool).
+  Variable of_int : Z -> num.
+  Variables (fexp flog : num -> num) (fpow : num -> num -> num).
+  Variable round4 : num -> num.
+  Variables (exp4 log4 : num -> num) (pow4 : num -> num -> num).
+  Variables (zero one : num).
+  Variable isfin : num -> bool.
+  Notation f_pass := (FSem.f_pass num add sub mul div neg absf ltb of_int fexp flog fpow round4 exp4 log4 pow4 zero one).
+
+  (* the compiled statements write only solved_values(number of the left-hand variable, index) *)
+  Theorem C04_fortran_equations_block_writes_only_lhs (sh : list nat) (idx : Z) (prog : list (FSem.eqn num)) (v : vals num) :
+    1 <= idx <= Z.of_nat (hd 0%nat sh) ->
+    (forall i e, In (i, e) prog -> (i < length sh)%nat) ->
+    shape v = sh ->
+    agree_outside (fun i j => (exists e, In (i, e) prog) /\ j = Z.to_nat (idx - 1)) v (f_pass prog idx v).
+  Proof. exact (f_pass_frame num add sub mul div neg absf ltb of_int fexp flog fpow round4 exp4 log4 pow4 zero one sh idx prog v). Qed.
+
+  (* FortranEngine.solve_t of ANY generated program, all options, both spellings of t, feasible or not: no value outside
+     column p changes, inside it only left-hand-side / endogenous rows; status / iterations at p only; no hook event *)
+  Theorem C04_fortran_parsed_solve_t_touches_only_t (prog : list (FSem.eqn num)) (fm : FSolve.fmod) d o t s p :
+    py_pos (length (status s)) t = Some p ->
+    hd 0%nat (shape (vals_of s)) = length (status s) ->
+    (forall r, In r (FSolve.fm_endo fm) -> 1 <= r <= Z.of_nat (length (vals_of s))) ->
+    (forall i e, In (i, e) prog -> (i < length (vals_of s))%nat) ->
+    let s' := fst (FSolve.w_solve_t num sub absf ltb isfin zero (f_pass prog) fm d o t s) in
+    agree_outside (fun i j => ((exists e, In (i, e) prog) \/ In i (endo d) \/ In (Z.of_nat i + 1) (FSolve.fm_endo fm)) /\ j = p)
+                  (vals_of s) (vals_of s') /\
+    sf_frame p s s' /\ log s' = log s.
+  Proof. exact (fortran_parsed_solve_t_touches_only_t num add sub mul div neg absf ltb of_int fexp flog fpow round4 exp4 log4 pow4 zero one isfin prog fm d o t s p). Qed.
+
+  (* ... and FortranEngine.solve() of ANY generated program: only visited columns, only left-hand / endogenous rows *)
+  Theorem C04_fortran_parsed_solve_touches_only_visited (prog : list (FSem.eqn num)) (fm : FSolve.fmod) d o fl (ps : list nat) (s : mstate num) :
+    (forall r, In r (FSolve.fm_endo fm) -> 1 <= r <= Z.of_nat (length (vals_of s))) ->
+    (forall i e, In (i, e) prog -> (i < length (vals_of s))%nat) ->
+    (forall p, In p ps -> (p < hd 0%nat (shape (vals_of s)))%nat) ->
+    let s' := fst (FSolve.w_solve num sub absf ltb isfin zero (f_pass prog) fm d o fl ps s) in
+    agree_outside (fun i j => In j ps /\ ((exists e, In (i, e) prog) \/ In (Z.of_nat i + 1) (FSolve.fm_endo fm))) (vals_of s) (vals_of s') /\
+    log s' = log s /\ length (status s') = length (status s) /\ length (iters s') = length (iters s) /\
+    (forall q, ~ In q ps -> nth_error (status s') q = nth_error (status s) q /\ nth_error (iters s') q = nth_error (iters s) q).
+  Proof. exact (fortran_parsed_solve_touches_only_visited num add sub mul div neg absf ltb of_int fexp flog fpow round4 exp4 log4 pow4 zero one isfin prog fm d o fl ps s). Qed.
+End C04_fortran_parsed.
 
 (* ============ Part C: witnesses on IEEE binary64 ============ *)
 (* finding #3 (still present in the code): rejected for pre-existing non-finite values, yet period t was overwritten *)
@@ -440,6 +502,10 @@ Print Assumptions C04_fortran_infeasible_no_offset_no_change.
 Print Assumptions C04_fortran_infeasible_never_served.
 Print Assumptions C04_fortran_evaluate_infeasible_rejected.
 Print Assumptions C04_fortran_solve_t_frame.
+Print Assumptions C04_fortran_solve_frame.
+Print Assumptions C04_fortran_parsed_solve_touches_only_visited.
+Print Assumptions C04_fortran_equations_block_writes_only_lhs.
+Print Assumptions C04_fortran_parsed_solve_t_touches_only_t.
 Print Assumptions C04_fortran_infeasible_after_offset_refuted.
 Print Assumptions ex_hyps_satisfiable.
 Print Assumptions exF_hyps.
@@ -447,3 +513,5 @@ Print Assumptions ex_entry_hyps.
 Print Assumptions ex_entry_locate_ok.
 Print Assumptions ex_ordinary.
 Print Assumptions exF_frame_hyps.
+Print Assumptions exF_parsed_hyps.
+Print Assumptions exF_parsed_solve_hyps.
